@@ -182,7 +182,7 @@ def run(ctx):
             if ctx.only and not ctx.only.search(n):
                 continue
             if ctx.tier == "quick" and "q" in tiers:
-                ctx.add(n, kq, timeout=900, diff_cycles=8, cover_required=not n.endswith("_long"),
+                ctx.add(n, kq, timeout=1800, diff_cycles=8, cover_required=not n.endswith("_long"),
                         bads=["refresh_owed_exceeds_postponing"] if n.endswith("_long") else None)
             elif ctx.tier == "thorough":
                 ctx.add(n, kt, timeout=3000, diff_cycles=8)
